@@ -12,6 +12,7 @@ SCENARIOS = {
     "mig": dict(module="MC_mig", native=True, frozen=False, quick=120, thorough=1500, extra={"Family": '"realistic"'}),
     "migarb": dict(module="MC_mig", native=False, frozen=False, quick=120, thorough=1500, extra={"Family": '"arbitrary"'}),
     "book2": dict(module="MC_book2", native=True, frozen=True, quick=120, thorough=1500),
+    "instbig": dict(module="MC_instbig", kind="instbig", native=True, frozen=True, quick=60, thorough=120),
     "marker": dict(module="MC_marker", native=True, frozen=True, quick=120, thorough=1500),
 }
 
@@ -33,7 +34,7 @@ PROPS = {
     "C10": dict(quick=["marker"], thorough=["marker", "admit"], drive=[("mixed", 2, 40, 250)]),
     "C11": dict(quick=["book2", "book1", "frac", "admit"], thorough=["book2", "book1", "frac", "admit"], drive=[("mixed", 2, 40, 250)]),
     "C12": dict(quick=["cfg"], thorough=["cfg"], drive=[("modify", 2, 40, 250)]),
-    "C13": dict(quick=["inst", "admit", "frac"], thorough=["inst", "admit", "frac"], drive=[("create", 1, 20, 150)]),
+    "C13": dict(quick=["inst", "instbig", "admit", "frac"], thorough=["inst", "instbig", "admit", "frac"], drive=[("create", 1, 20, 150)]),
     "C14": dict(quick=["mig"], thorough=["mig", "migarb"], drive=[("migrate", 2, 40, 250)]),
     "C15": dict(quick=["mig", "migarb"], thorough=["mig", "migarb"], drive=[("migrate", 2, 40, 250)]),
     "C16": dict(quick=["book1", "book2", "mig"], thorough=["book1", "book2", "mig"], drive=[("mixed", 2, 40, 250)]),
